@@ -25,10 +25,51 @@ type Program struct {
 }
 
 // loadProgram loads /repo's current working tree plus the harness overlay and builds SSA.
+// harnessFiles is the set of harness files in use (all of them, unless some had to be left out: see loadProgramFor).
+var harnessFiles []string
+
+// loadProgramFor loads the tree with every harness file; if the tree under test no longer compiles against some
+// harness file (an internal helper it calls was renamed or removed), the files the compiler complains about are
+// left out - never the primitives nor the file of the property being checked - so that one stale harness does not
+// take the checks of the other properties down with it.
+func loadProgramFor(repo, harnessDir, prop string) (*Program, error) {
+	all, _ := filepath.Glob(filepath.Join(harnessDir, "zz_verif_*.go"))
+	sort.Strings(all)
+	harnessFiles = all
+	keep := map[string]bool{"zz_verif_prims.go": true, "zz_verif_" + strings.ToLower(prop) + ".go": true}
+	for round := 0; round < 6; round++ {
+		p, err := loadProgram(repo, harnessDir)
+		if err == nil {
+			if round > 0 {
+				fmt.Printf("  NOTE: %d harness file(s) of other properties no longer compile against this tree and were left out\n", len(all)-len(harnessFiles))
+			}
+			return p, nil
+		}
+		dropped := false
+		var next []string
+		for _, f := range harnessFiles {
+			base := filepath.Base(f)
+			if !keep[base] && strings.Contains(err.Error(), base+":") {
+				dropped = true
+				continue
+			}
+			next = append(next, f)
+		}
+		if !dropped {
+			return nil, err
+		}
+		harnessFiles = next
+	}
+	return nil, fmt.Errorf("harness files do not compile against this tree")
+}
+
 func loadProgram(repo string, harnessDir string) (*Program, error) {
 	overlay := map[string][]byte{}
-	files, _ := filepath.Glob(filepath.Join(harnessDir, "zz_verif_*.go"))
-	sort.Strings(files)
+	files := harnessFiles
+	if files == nil {
+		files, _ = filepath.Glob(filepath.Join(harnessDir, "zz_verif_*.go"))
+		sort.Strings(files)
+	}
 	for _, f := range files {
 		if strings.HasSuffix(f, "_test.go") {
 			continue
